@@ -22,7 +22,7 @@ RULE = ("one execution = one point of the behaviour product (map|flat_map) x (ex
 REQUIRED = ["line_events", "lock_acquisitions"]
 
 MAP_FN = ["omit", "ret", "raise"]
-MAP_EFN = ["omit", "ret", "raise_new", "reraise"]
+MAP_EFN = ["omit", "ret", "ret_none", "raise_new", "reraise"]
 FLAT_FN = ["omit", "ret_done", "ret_pending_value", "ret_pending_exc", "ret_failed", "ret_cancelled", "ret_nonfuture", "raise"]
 FLAT_EFN = ["omit", "ret_done", "ret_failed", "ret_pending_value", "ret_pending_exc", "ret_nonfuture", "raise_new", "reraise"]
 
@@ -140,6 +140,8 @@ class World(object):
         k = self.efnk
         if k == "ret":
             return ("rec", type(ex).__name__)
+        if k == "ret_none":
+            return None
         if k == "raise_new":
             raise self.e_efn
         if k == "reraise":
@@ -178,6 +180,8 @@ class World(object):
             return ("exc", e, 0, 0)
         if self.efnk == "ret":
             return ("value", ("rec", "UserErrorA"), 0, 1) if not flat else ("exctype", TypeError, 0, 1)
+        if self.efnk == "ret_none":
+            return ("value", None, 0, 1) if not flat else ("exctype", TypeError, 0, 1)
         if self.efnk == "raise_new":
             return ("exc", self.e_efn, 0, 1)
         if self.efnk == "reraise":
